@@ -1261,7 +1261,7 @@ func c06probes(c *core.Ctx) {
 			return "legal YANG (an extension may stand below any statement, RFC 7950 §6.3.1) does not load: " + err.Error()
 		}
 		return ""
-	}, "extension-below-must-description"})
+	}, ""})
 	for _, body := range []string{"leaf a { type string; config \"false\"; }", "leaf a { type string; mandatory 'true'; }", "leaf a { type string; status \"current\"; }",
 		"leaf-list a { type string; ordered-by \"user\"; }", "leaf-list a { type string; max-elements \"unbounded\"; }", "leaf a { type \"string\"; }", "leaf \"a\" { type string; }", "container 'a' { }"} {
 		body := body
